@@ -213,4 +213,22 @@ CHECKS["C16"] = {
     "note": TB,
 }
 
+CHECKS["C17"] = {
+    "technique": "runtime monitoring: postcondition wrapper on "
+                 "InstanceDecoder.decode + sys.monitoring state-diff tracer "
+                 "that reconstructs a witness packing from the decoder's own "
+                 "cuts, judged by an independent feasibility oracle; "
+                 "objective range/repeatability monitors",
+    "text": "Every decode() of the workload (shipped and synthetic "
+            "templates, all admissible vector lengths, extreme-value and "
+            "adversarial-slack vectors) is observed line by line; the cuts "
+            "the real code makes are turned into a layout in min_bins bins "
+            "which must be a feasible packing of exactly the generated "
+            "instance, the area must still need min_bins bins and the "
+            "instance's own lower bound must equal it; a logical line budget "
+            "bounds each call. Errors/Hardness are judged for range, "
+            "template = 0 and repeatability. Held on the vectors explored.",
+    "note": TB + "; CPython sys.monitoring LINE events",
+}
+
 NOT_APPLICABLE = {}
